@@ -14,8 +14,9 @@ package interp
 //
 // Granularity and limits: a cell is one addressable slot (variable, field,
 // array/slice element) or one map; a whole-struct store and a field access of
-// the same struct are different cells (missed, not invented); append/copy and
-// engine intrinsics are not recorded.
+// the same struct are different cells (missed, not invented); copy and
+// in-place append are recorded element by element; engine intrinsics
+// (strings.Builder, bytes kernels, fmt) are not.
 
 import (
 	"fmt"
@@ -47,6 +48,7 @@ type cellShadow struct {
 type raceState struct {
 	on    bool
 	susp  int // >0: accesses are not recorded (lazy package initialisation)
+	cur   ssa.Instruction // the instruction being executed (for copy/append)
 	tid   int // running logical thread, -1 outside RunThreads
 	vc    [maxThreads]vclock
 	sync  map[interface{}]*vclock
@@ -160,6 +162,32 @@ func (i *interpreter) hbAcquire(k interface{}) {
 	}
 	if c := rs.sync[k]; c != nil {
 		rs.vc[rs.tid].join(c)
+	}
+}
+
+// raceCopy records what the copy builtin touches: dst[0:n] written, src[0:n]
+// read (src nil: a string source). raceAppendInPlace records the elements an
+// append writes into spare capacity of a shared backing array.
+func (i *interpreter) raceCopy(dst, src []value, n int) {
+	rs := i.race
+	if rs == nil || !rs.on || rs.tid < 0 || rs.susp > 0 || rs.cur == nil {
+		return
+	}
+	for k := 0; k < n; k++ {
+		i.raceWrite(&dst[k], rs.cur)
+		if src != nil {
+			i.raceRead(&src[k], rs.cur)
+		}
+	}
+}
+
+func (i *interpreter) raceAppendInPlace(grown []value, from int) {
+	rs := i.race
+	if rs == nil || !rs.on || rs.tid < 0 || rs.susp > 0 || rs.cur == nil {
+		return
+	}
+	for k := from; k < len(grown); k++ {
+		i.raceWrite(&grown[k], rs.cur)
 	}
 }
 
